@@ -161,6 +161,22 @@ theorem sdk_cancel_impure_witness :
     cancelDefault 128 ⟨0, 2 ^ 127 + 5, 2 ^ 127⟩ = none ∧ cancel ⟨0, 2 ^ 127 + 5, 2 ^ 127⟩ = ⟨0, 5, 0⟩ := by
   constructor <;> decide
 
+/-- what the SDK copy's netting is, following the source (`Gen.sdkOverridesCancel` is regenerated
+from `crates/programs/src/model/pool.rs` on every run): with the override it IS the program's
+netting on every pool, pure or not, at every magnitude; without it, the inherited default. -/
+theorem sdk_cancel_follows_source (W : Nat) (p : Pool) :
+    (Gmx.Gen.sdkOverridesCancel = true → cancelSdk W p = some (cancel p)) ∧
+    (Gmx.Gen.sdkOverridesCancel = false → cancelSdk W p = cancelDefault W p) := by
+  unfold cancelSdk
+  constructor
+  · intro h; rw [if_pos h]
+  · intro h; rw [if_neg (by simp [h])]
+
+/-- in either case the SDK netting equals the program's on every pure pool … -/
+theorem sdk_cancelSdk_pure_eq (W : Nat) (p : Pool) (h : p.pure = true) (hw : 1 ≤ W) (hl : p.long < 2 ^ W) :
+    cancelSdk W p = some (cancel p) :=
+  Lem.cancelSdk_pure W p h hw hl
+
 /-- whole histories on a pure pool: the SDK transcription and the store transcription agree. -/
 theorem sdk_pool_eq_store_pool (W : Nat) (p : Pool) (ops : List Op) (h : p.pure = true)
     (hw : 1 ≤ W) (hl : p.long < 2 ^ W) :
